@@ -188,6 +188,8 @@ def run(pid, tier, args):
             bad = None
             if r.startswith(("panic", "hang")):
                 bad = "Build %s" % r[:120]
+            elif r.startswith("mixed"):
+                bad = "the verdict of Build depends on whether the struct or the union is the root type: %s" % r[6:260]
             elif s == "lr" and not r.startswith("err"):
                 bad = "left-recursive grammar accepted by Build"
             elif s == "nolr" and r.startswith("err"):
